@@ -140,10 +140,16 @@ impl Permissioner {
     #[verifier::external_body] pub fn update_user(&self, user_id: u32) -> (r: Result<(), IggyError>) { unimplemented!() }
     #[verifier::external_body] pub fn get_user(&self, user_id: u32) -> (r: Result<(), IggyError>) { unimplemented!() }
     #[verifier::external_body] pub fn get_users(&self, user_id: u32) -> (r: Result<(), IggyError>) { unimplemented!() }
+    // LINKED (as a simulation: `rows()` is ghost bookkeeping coupled to the real tables, not a function of them): units/permissioner/lemmas.rs,
+    // harness [C09.link.users_restart.init_permissions_for_user] (the same stub as in unit users_restart). The `requires` was ADDED by the link:
+    // the real function only adds rows; on a user that already has rows the old stream rows survive and the tables are no longer the
+    // denormalisation of `rows()`.
     #[verifier::external_body]
     pub fn init_permissions_for_user(&mut self, user_id: u32, permissions: Option<Permissions>)
+        requires !old(self).rows().contains_key(user_id),
         ensures final(self).rows() == old(self).rows().insert(user_id, permissions),
     { unimplemented!() }
+    // LINKED (simulation, see above): units/permissioner/lemmas.rs, harness [C09.link.catalogue_more.delete_permissions_for_user]
     #[verifier::external_body]
     pub fn delete_permissions_for_user(&mut self, user_id: u32)
         ensures final(self).rows() == old(self).rows().remove(user_id),
@@ -180,6 +186,7 @@ pub open spec fn cm_ids_nonzero(cm: &ClientManager) -> bool {
 }
 impl ClientManager {
     // client_memberships [C06.cascade.user.ok], [C06.cascade.user], [C06.cascade.user.rest]
+    // LINKED: units/client_memberships/lemmas.rs, harness [C06.link.catalogue_more.delete_clients_for_user] (mirror edits there)
     #[verifier::external_body]
     pub fn delete_clients_for_user(&mut self, user_id: u32) -> (r: Result<(), IggyError>)
         requires cm_keys_wf(old(self)),
@@ -241,6 +248,11 @@ pub open spec fn user_of(s: &System, ident: &Identifier) -> Option<u32> {
     }
 }
 // the id allocator lies above every stored id (System::load_users: USER_ID = max id + 1) and never hands out 0
+// (exposed by link pass 2) only existing users have rows in the permission tables: with alloc_inv it makes the id handed out by
+// create_user a user WITHOUT rows, the precondition of Permissioner::init_permissions_for_user. Kept by create_user / delete_user.
+pub open spec fn perm_rows_within(s: &System) -> bool {
+    forall|k: u32| #[trigger] s.permissioner.rows().contains_key(k) ==> s.users@.contains_key(k)
+}
 pub open spec fn alloc_inv(s: &System, c: &Counter32) -> bool {
     c.v >= 1 && forall|k: u32| #[trigger] s.users@.contains_key(k) ==> k < c.v
 }
@@ -444,6 +456,7 @@ pub open spec fn system_unchanged(a: &System, b: &System) -> bool {
 }
 impl System {
     // catalogue_maps [C06.byname.stream.get]
+    // LINKED: units/catalogue_maps/lemmas.rs, harness [C06.link.catalogue_more.get_stream] (mirror edits there)
     #[verifier::external_body]
     pub fn get_stream(&self, identifier: &Identifier) -> (r: Result<&Stream, IggyError>)
         ensures match r {
@@ -451,6 +464,7 @@ impl System {
             Err(_) => stream_of(self, identifier) is None },
     { unimplemented!() }
     // catalogue_maps [C06.byname.stream.get_mut]
+    // LINKED: units/catalogue_maps/lemmas.rs, harness [C06.link.catalogue_more.get_stream_mut] (mirror edits there)
     #[verifier::external_body]
     pub fn get_stream_mut(&mut self, identifier: &Identifier) -> (r: Result<&mut Stream, IggyError>)
         ensures match r {
@@ -461,6 +475,7 @@ impl System {
 }
 impl Stream {
     // catalogue_maps [C06.byname.topic.get]
+    // LINKED: units/catalogue_maps/lemmas.rs, harness [C06.link.catalogue_more.get_topic] (mirror edits there)
     #[verifier::external_body]
     pub fn get_topic(&self, identifier: &Identifier) -> (r: Result<&Topic, IggyError>)
         ensures match r {
@@ -483,6 +498,7 @@ impl AtomicCell32 {
 exec static CURRENT_STREAM_ID: AtomicCell32 ensures true { AtomicCell32::new(1) }
 impl Stream {
     // catalogue_maps [C06.sibling.remove_topic], [C06.fail.remove_topic] (+ stream_wf preserved, [C06.bij.delete_topic])
+    // LINKED: units/catalogue_maps/lemmas.rs, harness [C06.link.catalogue_more.remove_topic] (mirror edits there)
     #[verifier::external_body]
     pub fn remove_topic(&mut self, identifier: &Identifier) -> (r: Result<Topic, IggyError>)
         requires stream_wf(old(self)),
@@ -526,6 +542,7 @@ pub open spec fn without_topic(gs: Seq<ConsumerGroup>, sid: u32, tid: u32) -> Se
 }
 impl ClientManager {
     // client_memberships [C06.cascade.topic.clients], [C06.cascade.topic]
+    // LINKED: units/client_memberships/lemmas.rs, harness [C06.link.catalogue_more.delete_consumer_groups_for_topic] (mirror edits there)
     #[verifier::external_body]
     pub fn delete_consumer_groups_for_topic(&mut self, stream_id: u32, topic_id: u32)
         ensures
@@ -540,6 +557,7 @@ pub open spec fn without_stream(gs: Seq<ConsumerGroup>, sid: u32) -> Seq<Consume
 }
 impl ClientManager {
     // client_memberships [C06.cascade.stream.clients], [C06.cascade.stream]
+    // LINKED: units/client_memberships/lemmas.rs, harness [C06.link.catalogue_more.delete_consumer_groups_for_stream] (mirror edits there)
     #[verifier::external_body]
     pub fn delete_consumer_groups_for_stream(&mut self, stream_id: u32)
         ensures
@@ -596,6 +614,8 @@ impl System {
     // unrepaired tree, where delete_user calls ClientManager::delete_clients_for_user instead): every client logged in as
     // the user is disconnected through System::delete_client. Assumed here, PROVED in unit user_disconnect
     // ([C06.cascade.user.table], [C06.cascade.user.table.rest], [C08.leave.user-delete.each], [C06.shape.user-disconnect.catalogue]). R6: `&self` promoted (the client table is written).
+    // LINKED: units/user_disconnect/lemmas.rs, harness [C08.link.catalogue_more.system_delete_clients_for_user] (mirror edits there; left_evt /
+    // membership_live, uninterpreted here, are the definitions of vx/prelude/disconnect.rs there)
     #[verifier::external_body]
     pub fn delete_clients_for_user(&mut self, user_id: u32)
         requires cm_keys_wf(&old(self).client_manager), members_wf(&old(self).client_manager), cm_ids_nonzero(&old(self).client_manager),
